@@ -59,6 +59,15 @@ def explore(ctx):
     except Exception as e:
         ctx.broke('table-evaluation', 'driver skeleton', repr(e)[:500])
     try:
+        r = coq.eval_terms('c19warn', IMPORTS, [], [
+            'map (fun t => fst (fst t)) (filter (fun t => negb (oob_strict_with is_fatal (snd (fst t)) (snd t) || mem (fst (fst t)) Gen.ClangDelta.warn_supported)) Gen.ClangDelta.skeletons)'])
+        for name in sorted(set(re.findall(r'"([^"]+)"', r[0]))):
+            ctx.violation('warn-switch-honoured:' + name, f'transformation {name}: with --warn-on-counter-out-of-bounds a counter beyond the number of instances no longer ends in the '
+                          f'out-of-range error (HandleTranslationUnit goes on to rewrite); the switch is documented for {clangdelta.warn_supported()} only',
+                          {'transformation': name, 'flags': '--warn-on-counter-out-of-bounds', 'counter': 'beyond the number of instances'})
+    except Exception as e:
+        ctx.broke('table-evaluation', 'warn switch', repr(e)[:500])
+    try:
         from gen import clangdelta as _cd
         for (c_, t_, w_, rf, er) in _cd.counter_validity_table():
             want = (c_ or t_) and not w_
